@@ -68,6 +68,12 @@ class C14(Check):
         segs = [(gen_seg(rng) if rng.chance(0.4) else rng.pick(SEG_POOLS)) for _ in range(depth)]
         if rng.chance(0.15):
             segs = ['backup' + rng.pick(['', 'foo']), '0004000000123400', 'abcdefgh', '00000001.sav'][:rng.randint(2, 4)]
+        elif rng.chance(0.12):
+            # '/backup...' paths of total length 26..30: both sides of the alias guard (longer than 28 characters)
+            total = rng.pick([26, 27, 28, 28, 29, 30])
+            head = 'backup' + rng.pick(['', 's'])
+            mid = rng.pick(['savegames', 'dbs', 'x'])
+            segs = [head, mid, 'm' * max(1, total - (1 + len(head) + 1 + len(mid) + 1) - 4) + '.sav']
         return {'segs': segs, 'keylen': rng.pick([0x10, 0x120, 0x140, 0x10, 0x11, 0x100]), 'backend': rng.pick(['mem', 'mem', 'os']),
                 'via': rng.pick(['root', 'opendir', 'opendir2']), 'style': rng.pick(['plain', 'slash', 'dot', 'dotdot', 'dslash', 'upper']),
                 'api': rng.pick(['open', 'openbin']), 'reread': rng.pick(['canonical', 'same-spelling']),
